@@ -93,6 +93,7 @@ func runGeneric(r *Report, prop string) {
 		return
 	}
 	g := func(n int) string { return fmt.Sprintf("R-%s-G%d", prop, n) }
+	runLockOrder(r, prop, files)
 	nf, nLock, nErr, nNil := 0, 0, 0, 0
 	for _, f := range r.P.Funcs {
 		if len(f.Blocks) == 0 {
@@ -105,6 +106,32 @@ func runGeneric(r *Report, prop string) {
 		}
 		nf++
 		fn := r.P.FuncName(f)
+		runReadBufferRetained(r, g(8), f)
+		// G9: every read->write copy loop of the anchored code (discovered by shape: a Read in a loop
+		// whose buffer is handed to a Write in the same loop) keeps the copy-loop obligations
+		Instrs(f, func(in ssa.Instruction) {
+			rd, ok := in.(*ssa.Call)
+			if !ok || !isReadMethod(rd) || !InLoop(rd.Block()) || extractOf(rd, 0) == nil {
+				return
+			}
+			buf := bufArg(rd)
+			if buf == nil {
+				return
+			}
+			found := false
+			for b := range loopBlocks(rd.Block()) {
+				for _, x := range b.Instrs {
+					if w, ok := x.(ssa.CallInstruction); ok && isWriteMethod(w) {
+						if a := bufArg(w); a != nil && aliases(a, buf, map[ssa.Value]bool{}) {
+							found = true
+						}
+					}
+				}
+			}
+			if found {
+				CheckCopyLoop(r, g(9), f, rd, false)
+			}
+		})
 		// ---- G1 lock pairing ------------------------------------------------------
 		ls := lockSetsOf(f)
 		entryHeld := strings.HasSuffix(Outermost(f).Name(), "Locked") || strings.HasSuffix(Outermost(f).Name(), "locked")
@@ -456,4 +483,269 @@ func normName(s string) string {
 	s = strings.ToLower(s)
 	s = strings.ReplaceAll(s, "_", "")
 	return s
+}
+
+// ---------------------------------------------------------------------------
+// G7 lock order: two mutex fields are never acquired in both orders (a deadlock needs only the two
+// paths to run at the same time). Lock identity is (struct type, field); acquisitions through
+// same-package callees count (depth 2).
+
+type lockEdge struct {
+	from, to string
+	pos      token.Pos
+	fn       string
+}
+
+var lockOrderEdges []lockEdge
+var lockOrderDone bool
+
+func lockIdent(v ssa.Value) string {
+	v = stripValue(v)
+	if fa, ok := v.(*ssa.FieldAddr); ok {
+		t := fa.X.Type()
+		if p, ok := t.Underlying().(*types.Pointer); ok {
+			t = p.Elem()
+		}
+		if n, ok := t.(*types.Named); ok {
+			return n.Obj().Pkg().Name() + "." + n.Obj().Name() + "." + fieldName(fa.X.Type(), fa.Field)
+		}
+	}
+	return ""
+}
+
+func computeLockOrder(p *Prog) {
+	if lockOrderDone {
+		return
+	}
+	lockOrderDone = true
+	direct := map[*ssa.Function]map[string]bool{}
+	for _, f := range p.Funcs {
+		Instrs(f, func(in ssa.Instruction) {
+			ci, ok := in.(*ssa.Call)
+			if !ok {
+				return
+			}
+			if _, op, ok := lockOp(ci); ok && (op == "Lock" || op == "RLock") {
+				if id := lockIdent(Recv(ci)); id != "" {
+					if direct[f] == nil {
+						direct[f] = map[string]bool{}
+					}
+					direct[f][id] = true
+				}
+			}
+		})
+	}
+	var acquires func(f *ssa.Function, depth int) map[string]bool
+	memo := map[*ssa.Function]map[string]bool{}
+	acquires = func(f *ssa.Function, depth int) map[string]bool {
+		if m, ok := memo[f]; ok && depth == 2 {
+			return m
+		}
+		out := map[string]bool{}
+		for k := range direct[f] {
+			out[k] = true
+		}
+		if depth > 0 {
+			Instrs(f, func(in ssa.Instruction) {
+				if c, ok := in.(*ssa.Call); ok {
+					if g := c.Common().StaticCallee(); g != nil && g != f && g.Pkg == f.Pkg && len(g.Blocks) > 0 {
+						for k := range acquires(g, depth-1) {
+							out[k] = true
+						}
+					}
+				}
+			})
+		}
+		if depth == 2 {
+			memo[f] = out
+		}
+		return out
+	}
+	for _, f := range p.Funcs {
+		hasLock := len(direct[f]) > 0
+		if !hasLock {
+			continue
+		}
+		ls := lockSetsOf(f)
+		// path -> identity for the locks taken in f
+		ident := map[string]string{}
+		Instrs(f, func(in ssa.Instruction) {
+			if ci, ok := in.(ssa.CallInstruction); ok {
+				if path, _, ok := lockOp(ci); ok {
+					if id := lockIdent(Recv(ci)); id != "" {
+						ident[path] = id
+					}
+				}
+			}
+		})
+		Instrs(f, func(in ssa.Instruction) {
+			c, ok := in.(*ssa.Call)
+			if !ok {
+				return
+			}
+			var taken map[string]bool
+			if _, op, ok := lockOp(c); ok && (op == "Lock" || op == "RLock") {
+				if id := lockIdent(Recv(c)); id != "" {
+					taken = map[string]bool{id: true}
+				}
+			} else if g := c.Common().StaticCallee(); g != nil && g != f && g.Pkg == f.Pkg && len(g.Blocks) > 0 {
+				taken = acquires(g, 2)
+			}
+			if len(taken) == 0 {
+				return
+			}
+			for path := range ls.HeldAll(in) {
+				from := ident[path]
+				if from == "" {
+					continue
+				}
+				for to := range taken {
+					if to != from {
+						lockOrderEdges = append(lockOrderEdges, lockEdge{from, to, in.Pos(), p.FuncName(f)})
+					}
+				}
+			}
+		})
+	}
+}
+
+func runLockOrder(r *Report, prop string, files map[string]bool) {
+	computeLockOrder(r.P)
+	rule := fmt.Sprintf("R-%s-G7", prop)
+	inAnchor := func(pos token.Pos) bool {
+		ps := r.P.Fset.Position(pos)
+		rel, err := filepath.Rel(r.P.Repo, ps.Filename)
+		return err == nil && files[rel]
+	}
+	seen := map[string]bool{}
+	for _, a := range lockOrderEdges {
+		if !inAnchor(a.pos) {
+			continue
+		}
+		k := a.from + "->" + a.to + "|" + a.fn
+		if seen[k] {
+			continue
+		}
+		seen[k] = true
+		var rev *lockEdge
+		for i := range lockOrderEdges {
+			b := &lockOrderEdges[i]
+			if b.from == a.to && b.to == a.from {
+				rev = b
+				break
+			}
+		}
+		msg := fmt.Sprintf("%s is acquired while %s is held; no path acquires them in the opposite order", a.to, a.from)
+		if rev != nil {
+			msg = fmt.Sprintf("%s is acquired while %s is held here, and %s acquires them in the opposite order at %s: the two paths deadlock when they run together", a.to, a.from, rev.fn, r.P.Pos(rev.pos))
+		}
+		r.Ob(rule, a.pos, rev == nil, msg, a.fn, "lock-order:"+a.from+"->"+a.to)
+	}
+}
+
+// ---------------------------------------------------------------------------
+// G8 a read buffer that the loop refills is not handed on without a copy: a sub-slice of a buffer
+// allocated outside a loop, filled by a Read inside the loop, must not be sent on a channel, stored
+// in a field / element, or passed to a goroutine - the next iteration overwrites what the receiver
+// still holds.
+
+func bufferRoot(v ssa.Value) ssa.Value {
+	for i := 0; i < 8; i++ {
+		v = stripValue(v)
+		if sl, ok := v.(*ssa.Slice); ok {
+			v = sl.X
+			continue
+		}
+		break
+	}
+	return v
+}
+
+func runReadBufferRetained(r *Report, rule string, f *ssa.Function) int {
+	n := 0
+	fn := r.P.FuncName(f)
+	Instrs(f, func(in ssa.Instruction) {
+		ci, ok := in.(*ssa.Call)
+		if !ok || !InLoop(ci.Block()) {
+			return
+		}
+		switch CalleeOf(ci).Name {
+		case "Read", "ReadFrom", "ReadFromUDP", "ReadFromUDPAddrPort", "ReadMsgUDP":
+		default:
+			return
+		}
+		b := Arg(ci, 0)
+		if b == nil {
+			return
+		}
+		if st, ok := b.Type().Underlying().(*types.Slice); !ok || st.Elem().String() != "byte" {
+			return
+		}
+		root := bufferRoot(b)
+		ri, isInstr := root.(ssa.Instruction)
+		if !isInstr || ri.Block() == nil || InLoop(ri.Block()) || ri.Parent() != f {
+			return
+		}
+		switch root.(type) {
+		case *ssa.Alloc, *ssa.MakeSlice, *ssa.Call:
+		default:
+			return
+		}
+		n++
+		// every slice derived from the root inside the loop
+		bad := ""
+		var visit func(v ssa.Value, depth int)
+		visit = func(v ssa.Value, depth int) {
+			if depth > 4 || v.Referrers() == nil || bad != "" {
+				return
+			}
+			for _, ref := range *v.Referrers() {
+				// a parser that returns a part of what it was given (`_, _, payload, _ := parse(buf[:n])`)
+				if hc, isCall := ref.(*ssa.Call); isCall && InLoop(hc.Block()) {
+					h := hc.Common().StaticCallee()
+					if h != nil && len(h.Blocks) > 0 && h.Pkg != nil && strings.HasPrefix(h.Pkg.Pkg.Path(), Module) {
+						for ai, a := range hc.Call.Args {
+							if a != v || ai >= len(h.Params) {
+								continue
+							}
+							for _, ret := range Returns(h) {
+								for j := range ret.Results {
+									if _, isSl := ret.Results[j].Type().Underlying().(*types.Slice); !isSl {
+										continue
+									}
+									if !aliases(RetVal(ret, j), h.Params[ai], map[ssa.Value]bool{}) {
+										continue
+									}
+									var out ssa.Value = hc
+									if h.Signature.Results().Len() > 1 {
+										out = extractOf(hc, j)
+									}
+									if out == nil {
+										continue
+									}
+									if how := retains(out, 0, map[ssa.Value]bool{}); how != "" && bad == "" {
+										bad = how + " (the part of it returned by " + h.Name() + ") at " + r.P.Pos(hc.Pos())
+									}
+								}
+							}
+						}
+					}
+				}
+				sl, ok := ref.(*ssa.Slice)
+				if !ok {
+					continue
+				}
+				if InLoop(sl.Block()) && ssa.Value(sl) != stripValue(b) {
+					if how := retains(sl, 0, map[ssa.Value]bool{}); how != "" {
+						bad = how + " at " + r.P.Pos(sl.Pos())
+						return
+					}
+				}
+				visit(sl, depth+1)
+			}
+		}
+		visit(root, 0)
+		r.Ob(rule, ci.Pos(), bad == "", "bytes of the buffer this loop refills are handed on only as a copy (a sub-slice of it is "+bad+": the next read overwrites what the receiver still holds)", fn, "read-buffer-not-retained")
+	})
+	return n
 }
